@@ -21,7 +21,7 @@ impl Driven for D {
    fn push(&mut self, rel: &str, row: &Value) {
       match rel {
          "e" => { self.0.e.push((row[0].as_i64().unwrap() as i32, row[1].as_i64().unwrap() as i32,)); },
-         "rs" => { self.0.rs.push(std::sync::RwLock::new((row[0].as_i64().unwrap() as i32, panic!("verif harness: cannot push a value of lattice type set_i32"),))); },
+         "rs" => { self.0.rs.push(std::sync::RwLock::new((row[0].as_i64().unwrap() as i32, Set(row[1].as_array().unwrap().iter().map(|v| v.as_i64().unwrap() as i32).collect()),))); },
          "has" => { self.0.has.push((row[0].as_i64().unwrap() as i32, row[1].as_i64().unwrap() as i32,)); },
          _ => panic!("verif harness: unknown relation {}", rel),
       }
